@@ -406,6 +406,10 @@ def check(ctx: Ctx):
               "the destination computation (looked up by name) must receive (sender, message, time), on every path: it is on_message that keeps messages for a computation not running yet")
     # clean_shutdown
     txt = [norm(c) for c in walk_no_nested(cs.node) if isinstance(c, ast.Call)]
+    other = [t for t in txt if not t.startswith("self.logger.") and t not in ("self._shutdown.set()", "self._messaging.shutdown()")]
+    ctx.check(not other, "R-SHUTDOWN", "clean_shutdown does nothing but raise the two shutdown flags", cs, next((c for c in walk_no_nested(cs.node) if isinstance(c, ast.Call) and norm(c) in other), cs.node),
+              f"found {other}: a clean shutdown lets the agent thread drain its queue into running computations; stopping / pausing computations (or anything else) first means the "
+              "queued messages are only parked by on_message and never reach their handlers")
     ctx.check("self._shutdown.set()" in txt and "self._messaging.shutdown()" in txt and "self._stopping.set()" not in txt,
               "R-SHUTDOWN", "clean_shutdown sets the shutdown flags only", cs, cs.node,
               "clean_shutdown must request shutdown (not an immediate stop) on both the agent and its messaging")
@@ -468,6 +472,7 @@ def _block_of(func_node, stmt):
 _F = "pydcop/infrastructure/communication.py"
 _A = "pydcop/infrastructure/agents.py"
 VARIANTS = [
+    ("clean_shutdown_stops_computations_first", _A, "        self.logger.debug('Clean shutdown requested')\n        self._shutdown.set()", "        self.logger.debug('Clean shutdown requested')\n        for computation in self.computations():\n            if computation.is_running:\n                computation.stop()\n        self._shutdown.set()", "break", "R-SHUTDOWN"),
     ("deliver_only_if_running", _A, "        dest = self.computation(dest_name)\n        dest.on_message(sender_name, msg, t)\n", "        dest = self.computation(dest_name)\n        if dest.is_running:\n            dest.on_message(sender_name, msg, t)\n", "break", "R-QUEUE.roles"),
     ("register_before_store", "pydcop/infrastructure/agents.py", "        self._computations[comp_name] = computation\n        self.discovery.register_computation(comp_name, self.name,self.address,\n                                            publish=publish)\n",
      "        self.discovery.register_computation(comp_name, self.name,self.address,\n                                            publish=publish)\n        self._computations[comp_name] = computation\n", "break", "R-RETRY.order"),
